@@ -143,6 +143,14 @@ fn main() {
         }
         "C04" => {
             let mut sink = cases::CaseSink::new("C04", "Model.Pipe Corr.C01 Corr.C04", &opts.out, 3);
+            // known finding F13: the engineered two-host join that deadlocks (and, in the thorough
+            // tier, its control); time unit 250 ms: user sleeps end at 12.5 s
+            props::muxjoin::emit(&mut sink, 20, true, 250, opts.seed);
+            if opts.thorough {
+                props::muxjoin::emit(&mut sink, 20, false, 250, opts.seed + 1);
+                props::muxjoin::emit(&mut sink, 14, true, 250, opts.seed + 2);
+            }
+            sink.wrap = Some(("KJob".into(), "C01".into()));
             props::jobs::generate_c04(&opts, &mut sink);
             sink.finish(props::jobs::RULE_C04, serde_json::json!({}));
         }
@@ -206,6 +214,14 @@ fn main() {
                 if res != Some(vec![o]) { bad += 1; }
             }
             println!("mismatches: {bad}/20");
+        }
+        "PROBE_F13" => {
+            for (ny, early) in [(20u64, true), (20, false), (14, true), (16, true), (15, true)] {
+                let t = std::time::Instant::now();
+                let o = props::muxjoin::run(ny, early, 250, 100 + ny + early as u64);
+                println!("ny {ny} early_flush {early}: {:?} after {:.1}s", o, t.elapsed().as_secs_f32());
+            }
+            std::process::exit(0);
         }
         "PROBE_F12" => {
             use pipe::*;
